@@ -88,11 +88,54 @@ fn check_case(spec: &TlSpec, rt: &RefTl, tl_s: &PTimeline, twin: &PTimeline, st:
     }
 }
 
+/// Keyframes of one property tied at 0% (a step at the very start of the cycle): the stretch "from 0% to the
+/// property's next keyframe" is empty, so a substituted start value may only show at position 0 itself; at every
+/// position strictly after 0% - first pass included - the results must be bit-identical to the twin.
+fn tied_family(thetas: &[Timing], grids: &[Vec<f32>], init: &P, acc: &mut Acc) {
+    let k = |pos: f32, a: Option<f32>, kk: Option<i32>, e: Option<u8>| Kf { pos, a, k: kk, d: None, easing: e };
+    let lists: Vec<Vec<Kf>> = vec![
+        vec![k(0.0, Some(10.0), None, None), k(0.0, Some(50.0), None, None), k(1.0, Some(90.0), None, None)],
+        vec![k(0.0, Some(10.0), Some(1), None), k(0.0, Some(50.0), Some(5), Some(1)), k(0.5, Some(30.0), None, None), k(1.0, Some(0.0), Some(9), None)],
+        vec![k(0.0, None, Some(-100), None), k(0.0, None, Some(100), None), k(0.0, None, Some(7), None), k(0.75, None, Some(300), Some(2))],
+        vec![k(0.0, Some(-8.0), None, None), k(0.0, Some(8.0), Some(3), None), k(0.25, Some(16.0), Some(33), None)],
+    ];
+    for (li, kfs) in lists.iter().enumerate() {
+        for (ti, th) in thetas.iter().enumerate() {
+            let spec = TlSpec { kfs: kfs.clone(), default_easing: 0, timing: *th };
+            let twin = spec.build();
+            let rt = RefTl::new(&spec);
+            for st in [vstar(), P::default(), P { a: 50.0, k: 100, ..P::default() }] {
+                let mut tls = twin.clone();
+                tls.start_with(&st);
+                acc.timelines += 1;
+                for &t in &grids[ti] {
+                    let ph = ref_phase(th, t);
+                    let q = ph.pos();
+                    if t <= th.delay || (q == 0.0 && matches!(ph, Phase::Active { cycle: 0, reversing: false, .. } | Phase::NotStarted)) {
+                        continue;
+                    }
+                    acc.evals += 1;
+                    acc.twin_equal += 1;
+                    let (got, tw) = (eval_real(&tls, t, init), eval_real(&twin, t, init));
+                    // only the properties that really have two keyframes at 0% (a property keyed once at 0% has a
+                    // proper first stretch, which the start value does influence)
+                    let differs = (rt.a.dup_at_zero && got.a.to_bits() != tw.a.to_bits()) || (rt.k.dup_at_zero && got.k != tw.k);
+                    if differs {
+                        add(acc, "tied-at-0%:start-value-leaks-past-the-0%-keyframes", (7u64 << 56) | (li as u64) << 8 | ti as u64, format!("t={t} phase={ph:?}: {:?} vs twin {:?}", got, tw), &spec, &st, t, init);
+                    }
+                }
+            }
+        }
+    }
+}
+
 pub fn run(run: Run) -> ! {
     let nmax = if run.is_thorough() { 4 } else { 3 };
     let thetas = theta_plus();
     let grids: Vec<Vec<f32>> = thetas.iter().map(|th| tau(th, 64)).collect();
     let init = P::sentinel();
+    let mut tied = Acc::default();
+    tied_family(&thetas, &grids, &init, &mut tied);
     let mut acc = for_each_kfs(
         nmax,
         &GRID5,
@@ -203,13 +246,17 @@ pub fn run(run: Run) -> ! {
     acc.evals += macc.evals;
     acc.exact_start += macc.exact_start;
     acc.twin_equal += macc.twin_equal;
+    acc.sink.merge(tied.sink);
+    acc.timelines += tied.timelines;
+    acc.evals += tied.evals;
+    acc.twin_equal += tied.twin_equal;
     let mut cov = Map::new();
     cov.insert("states".into(), json!(acc.timelines));
     cov.insert("transitions".into(), json!(acc.evals));
     cov.insert("traces_validated_against_impl".into(), json!(acc.evals));
     cov.insert("evaluations".into(), json!(acc.evals));
     cov.insert("distinct_nontrivial".into(), json!(acc.exact_start + acc.twin_equal + acc.first_segment));
-    cov.insert("rule".into(), json!(format!("keyframe lists of size 0..={nmax} (per-property distinct positions) x 13 timings (repeat None/Times/Infinite, with and without reverse, delays 0,1/4,1/2) x 4 start values (far away, Default, equal to the 0% value, large odd numbers 2^23+1 / -(2^23+1) / 2^24-1 that f32 holds exactly; in every other case preceded by an earlier, different start_with) x time grid with 64 points per cycle; twin = same build without start_with; clauses: t<=delay => exactly v (bit-equal) [{}], first forward pass before the property's second frame => RefCss with the 0% value replaced by v [{}], everything else (beyond the second frame, reverse pass, later cycles, after the end) bit-equal to the twin [{}]; plus merged pairs", acc.exact_start, acc.first_segment, acc.twin_equal)));
+    cov.insert("rule".into(), json!(format!("keyframe lists of size 0..={nmax} (per-property distinct positions) x 13 timings (repeat None/Times/Infinite, with and without reverse, delays 0,1/4,1/2) x 4 start values (far away, Default, equal to the 0% value, large odd numbers 2^23+1 / -(2^23+1) / 2^24-1 that f32 holds exactly; in every other case preceded by an earlier, different start_with) x time grid with 64 points per cycle; twin = same build without start_with; clauses: t<=delay => exactly v (bit-equal) [{}], first forward pass before the property's second frame => RefCss with the 0% value replaced by v [{}], everything else (beyond the second frame, reverse pass, later cycles, after the end) bit-equal to the twin [{}]; plus merged pairs; plus a family with keyframes of one property TIED at 0% (the stretch to the next keyframe is empty: strictly after 0% everything is bit-equal to the twin)", acc.exact_start, acc.first_segment, acc.twin_equal)));
     cov.insert("exhaustive".into(), json!(true));
     cov.insert("samples".into(), json!(acc.samples));
     run.finish(acc.sink, cov, vec!["loop-state flags at pass boundaries are pinned by C03".into()])
